@@ -51,8 +51,6 @@ RULE = ("generated Workflows of 3-8 steps (ValueFunctions; ResourceFunctions wit
         "(GET fault, mutation fault) plan. A case is one reconcile pass; non-trivial = a fault fired in it; distinct by "
         "(workflow, initial cluster, pass, call index, kind)")
 ASSUMPTIONS = [
-    "exception objects raised by the API layer are truthy (bool(exc) is True); a falsy exception object escapes "
-    "reconcile_workflow (theorem C09_pass_total_refuted, known finding)",
     "step results are never result.Ok INSTANCES (functions return bare values); checked on every observed result",
     "asyncio.TaskGroup / asyncio.timeout semantics (a raising task or the timeout cancels every unfinished task of the "
     "group; TaskGroup exits only when all its tasks are done) are observed under the virtual-time loop, not proved; the "
@@ -497,12 +495,8 @@ def oracle_pass(case, obs, faults_fired, tag):
     out = []
     kinds = sorted({k for (_i, k) in faults_fired})
     if obs["escaped"]:
-        if kinds == ["falsy"] or (obs["escaped"] == "Falsy"):
-            out.append(("falsy exception object escapes reconcile_workflow",
-                        f"{obs['escaped']} escaped reconcile_workflow ({tag})"))
-        else:
-            out.append((f"exception escapes reconcile_workflow ({'+'.join(kinds)})",
-                        f"{obs['escaped']} escaped reconcile_workflow ({tag})"))
+        out.append((f"exception escapes reconcile_workflow ({'+'.join(kinds)})",
+                    f"{obs['escaped']} escaped reconcile_workflow ({tag})"))
         return out
     res, rec = obs["res"], obs["rec"]
     if obs["t"] is None or obs["t"] > STEP_TIMEOUT + 1e-6:
@@ -606,7 +600,7 @@ def c_tend(e):
     if e is None or e[0] == "C":
         return "Cancelled"
     if e[0] == "E":
-        return f"(Excepted {cbool(e[1])})"
+        return "Excepted"
     return f"(Finished {c_sres(canon_oc(e[1]))})"
 
 
@@ -614,7 +608,7 @@ def c_otend(e):
     if e is None or e[0] == "C":
         return "OCancelled"
     if e[0] == "E":
-        return f"(OExcepted {cbool(e[1])})"
+        return "OExcepted"
     return f"(OFinished {c_oc(canon_oc(e[1]))})"
 
 
@@ -825,6 +819,10 @@ def explore_workflow(ctx: Ctx, case, cases, terms, budget):
             for i in range(len(pe["calls"])):
                 for k in KINDS:
                     plan.append({"p": p, "faults": {str(i): k}})
+        # a raising / failing mutation that answers LATE: every other runnable step has finished by then
+        late = [{"p": p, "faults": {str(i): k}, "latency": {str(i): 1.0}}
+                for p, pe in enumerate(ref) for i, c in enumerate(pe["calls"]) if c[0] != "GET"
+                for k in ("exc", "falsy")]
         if len(plan) > budget and not case.get("full"):
             # keep every (pass, index) with a rotating subset of kinds, plus a random sample
             keep = []
@@ -837,6 +835,7 @@ def explore_workflow(ctx: Ctx, case, cases, terms, budget):
             rest = [pl for pl in plan if pl not in keep]
             ctx.rng.shuffle(rest)
             plan = (keep + rest)[:budget]
+        plan += late
         extra = case.get("pairs", 0)
         for _ in range(extra):
             p = ctx.rng.randrange(len(ref))
@@ -859,12 +858,19 @@ def explore_workflow(ctx: Ctx, case, cases, terms, budget):
         obs, fired, rec = fault_run(case, wf, ref, p, faults, latency)
         done += 1
         problems = oracle_pass(case, obs, fired, tag) + check_recovery(ref, rec, tag)
+        if pl.get("expect") and not obs["escaped"]:
+            so = step_outcomes(obs["rec"].wfs[0]) or {}
+            for lab, want in pl["expect"].items():
+                got = so.get(lab)
+                if got is None or any(got.get(k) != v for k, v in want.items()):
+                    problems.append(("pinned regression expectation not met",
+                                     f"step {lab}: expected {want}, got {got} ({tag})"))
         for sig, what in problems:
             ctx.fail(Failure(signature=sig, what=what, case=dict(slim(case), plan=[pl]),
                              observed={"calls": [(c["method"], c["endpoint"], c["name"], c.get("fault")) for c in obs["calls"]],
                                        "escaped": obs["escaped"], "t": obs["t"],
                                        "result": canon_result(obs["res"]) if obs["res"] is not None else None}))
-        key = f"{case['uid']}|{sorted(map(str, initial))}|{p}|{sorted(pl['faults'].items())}"
+        key = f"{case['uid']}|{sorted(map(str, initial))}|{p}|{sorted(pl['faults'].items())}|{sorted(latency.items())}"
         ctx.note_case({"uid": case["uid"], "pass": p, "faults": pl["faults"]}, nontrivial=bool(fired), key=key)
         for (_i, k) in fired:
             ctx.count(f"fault:{k}")
